@@ -2,6 +2,7 @@
 import warnings
 
 import numpy as np
+import scipy.sparse as sp
 
 from .. import coqrun as cq
 from .. import gen
@@ -141,7 +142,7 @@ def run(ctx):
                 hpd = name in ('cg', 'cr', 'steepest_descent', 'minimal_residual')
                 A = Ah if hpd else Ag
                 xs = xs_h if hpd else xs_g
-                M = Md if name not in ('cgnr', 'cgne', 'bicgstab') else None
+                M = Md if name != 'bicgstab' else None
                 precond_tag = '/preconditioned' if (name == 'cr' and M is not None) else ''
                 Mx = M if M is not None else np.eye(n)
                 case = dict(base, solver=name)
@@ -149,13 +150,19 @@ def run(ctx):
                 kw = {}
                 prev = None
                 r0 = b - A @ x0
+                # storage of the operator alternates between a dense array and CSR (the solvers take their adjoints /
+                # products through different code paths)
+                sparse_in = (si + len(name)) % 2 == 1
+                Aarg = sp.csr_array(A) if sparse_in else A
+                Marg = sp.csr_array(M) if (sparse_in and M is not None) else M
+                case = dict(case, storage='csr' if sparse_in else 'dense')
                 for k in range(1, n + 1):
                     if name in ('gmres_mgs', 'gmres_householder', 'fgmres'):
                         with warnings.catch_warnings():
                             warnings.simplefilter('ignore')
-                            xk, _ = fn(A, b, x0=x0, tol=1e-300, maxiter=k, M=M)
+                            xk, _ = fn(Aarg, b, x0=x0, tol=1e-300, maxiter=k, M=Marg)
                     else:
-                        its = iterates_of(fn, A, b, x0, k, M, **kw)
+                        its = iterates_of(fn, Aarg, b, x0, k, Marg, **kw)
                         if len(its) < k:
                             break              # converged exactly / stopped early
                         xk = its[k - 1]
@@ -187,11 +194,13 @@ def run(ctx):
                         xb = best_in(x0, Qb, Mh @ A, Mh @ b)
                         val, best = np.linalg.norm(Mh @ (b - A @ xk)), np.linalg.norm(Mh @ (b - A @ xb))
                     elif name == 'cgnr':
-                        Qb = krylov_basis(A.conj().T @ A, A.conj().T @ r0, k)
+                        # CG on A^H A x = A^H b with preconditioner M: residual minimiser over x0 + K_k(M A^H A, M A^H r0)
+                        Qb = krylov_basis(Mx @ A.conj().T @ A, Mx @ A.conj().T @ r0, k)
                         xb = best_in(x0, Qb, A, b)
                         val, best = np.linalg.norm(b - A @ xk), np.linalg.norm(b - A @ xb)
                     elif name == 'cgne':
-                        Qb = A.conj().T @ krylov_basis(A @ A.conj().T, r0, k)
+                        # CG on A A^H y = b with preconditioner M, x = A^H y: error minimiser over x0 + A^H K_k(M A A^H, M r0)
+                        Qb = A.conj().T @ krylov_basis(Mx @ A @ A.conj().T, Mx @ r0, k)
                         xb = best_in(x0, np.linalg.qr(Qb)[0], np.eye(n), xs)
                         val, best = np.linalg.norm(xs - xk), np.linalg.norm(xs - xb)
                     elif name == 'steepest_descent':
